@@ -337,6 +337,16 @@ class Arr:
                 _srt((tuple(vkey(i) for i in w["idx"]), tuple(w["guards"]), tuple(w["loops"]), vkey(w["val"])) for w in self.writes))
 
 
+class ElemRef:
+    """`&mut a[idx]` as handed out by `a.iter_mut()` for a tracked array: assigning through it is the indexed write `a[idx] = v`."""
+
+    def __init__(self, arr, idx):
+        self.arr, self.idx = arr, idx
+
+    def key(self):
+        return ("elemref", self.arr.ident(), tuple(vkey(i) for i in self.idx))
+
+
 class PushLog:
     """Stand-in for an empty Vec while a `for` body is re-executed for one symbolic index: records (guards, pushed value)."""
 
@@ -368,7 +378,7 @@ class Clo:
 def vkey(v):
     if isinstance(v, Poly):
         return v.key()
-    if isinstance(v, (Rec, Tup, Sym, Alt, Clo, Seq, Coll, Arr, EarlyRet, PushLog)):
+    if isinstance(v, (Rec, Tup, Sym, Alt, Clo, Seq, Coll, Arr, EarlyRet, PushLog, ElemRef)):
         return v.key()
     if isinstance(v, (tuple, list)):
         return tuple(vkey(x) for x in v)
@@ -1401,6 +1411,12 @@ class Ev:
             return
         if k == "assign":
             lhs = x["l"]
+            tl = strip_refs(lhs)
+            if tl.get("k") == "path" and tl.get("res") == "local" and isinstance(env.get(tl["id"]), ElemRef):
+                ref = env[tl["id"]]          # `*entry = v` with entry from `a.iter_mut()`
+                self.seq_no = getattr(self, "seq_no", 0) + 1
+                ref.arr.writes.append({"idx": list(ref.idx), "guards": tuple(self.guards), "loops": tuple(self.loops), "val": self.eval(x["r"], env, depth), "seq": self.seq_no})
+                return
             if lhs.get("k") == "index":
                 return self.index_write(lhs, self.eval(x["r"], env, depth), env, depth, x)
             self.assign(lhs, self.carried(lhs, self.eval(x["r"], env, depth), env), env)
@@ -2014,6 +2030,9 @@ class Ev:
                      else Sym("at", vkey(recv), idx.key()))
             sq.finite = list(recv.items)
             return sq
+        if m == "iter_mut" and not args and isinstance(recv, Arr) and len(recv.dims) == 1:
+            # element idx of `a.iter_mut()` is the place a[idx]; the sequence runs over the array's extent
+            return Seq(Sym("range", Poly.const(0).key(), vkey(recv.dims[0])), lambda idx, a=recv: ElemRef(a, [idx]))
         if m == "next" and not args and strip_refs(e["recv"]).get("k") == "path" and strip_refs(e["recv"]).get("res") == "local" and not self.loops and \
                 isinstance(recv, (Sym, Seq)) and not (isinstance(recv, Sym) and recv.tag[:1] == ("ctor",)):
             # pulling from a local iterator: the k-th pull is item k of the sequence it was created over (None once exhausted); the iterator advances
@@ -2221,7 +2240,14 @@ class Ev:
                     if el is not None:
                         o = Seq(o, el if callable(el) else (lambda idx, el=el: el))
                 if isinstance(o, Seq):
-                    return Seq(Sym("zip", vkey(recv.src), vkey(o.src)), lambda idx, a=recv.fn, b=o.fn: Tup([a(idx), b(idx)]))
+                    # zipping the positions 0..len(c) (e.g. the places of an array as long as c) with c itself walks c
+                    pos_of = lambda c_src: vkey(Sym("range", Poly.const(0).key(), Poly.atom(("len", len_base(vkey(c_src)), None)).key()))
+                    zsrc = Sym("zip", vkey(recv.src), vkey(o.src))
+                    if vkey(recv.src) == pos_of(o.src) and not o.enumerated:
+                        zsrc = o.src
+                    elif vkey(o.src) == pos_of(recv.src) and not recv.enumerated:
+                        zsrc = recv.src
+                    return Seq(zsrc, lambda idx, a=recv.fn, b=o.fn: Tup([a(idx), b(idx)]))
         if m == "to_string" and not args and (e.get("ty") or "") == "std::string::String" and not isinstance(recv, (Rec, Arr, Coll, Seq, Tup)) and self.facts.fn(d) is None:
             return self.text_of(recv, e["recv"].get("ty"))         # the Display text: a str is its own text
         if m in ERASE_METHODS and not args:
